@@ -159,6 +159,7 @@ class bptk():
         self.visualizer = visualizer(config=self.config)
         self.abmrunner = HybridRunner(self.scenario_manager_factory) #TODO rename self.abmrunner to self.model_runner if still needed
         self.session_state = None
+        self._lock_guard = threading.Lock()
 
     def train_scenarios(self, scenarios, scenario_managers, episodes=1, agents=[], agent_states=[],
                           agent_properties=[], agent_property_types=[], series_names={}, return_df=False,
@@ -273,6 +274,13 @@ class bptk():
                 return False
             return self.session_state["lock"]
         return False
+    def try_lock(self):
+        """Take the session lock if it is free. Test and set happen atomically; returns False if the lock was already taken."""
+        with self._lock_guard:
+            if self.is_locked():
+                return False
+            self.lock()
+            return True
 
     def _train_scenarios(self, scenarios, scenario_managers, episodes=1, agents=[], agent_states=[],
                            agent_properties=[], agent_property_types=[], series_names={}, return_df=False,
